@@ -2,7 +2,8 @@ CONFIG = {
     "gens": ["Post", "RecFile", "Aid"],
     "level": "proof",
     "passes": [
-        {"name": "publish", "pkg": "c09", "bin": "c09", "driver": "drv_c09", "reset_prefix": "reset", "timeout": 2400},
+        {"name": "publish", "pkg": "c09", "bin": "c09", "driver": "drv_c09", "args": ["-stream", "posts"], "reset_prefix": "reset", "timeout": 2400},
+        {"name": "text", "pkg": "c09", "bin": "c09", "driver": "drv_c09", "args": ["-stream", "text"], "timeout": 2400},
     ],
     "trusted_base": [
         "fmt.Fprintf %s of byte slices, bytes.HasPrefix/Join/Index/IndexByte/TrimRight, os file calls: modelled by list functions; agreement checked by the correspondence on every run",
